@@ -224,7 +224,10 @@ LOk == {Id("a"), Mem(Id("o"), "p"), Mem(Mem(Id("o"), "q"), "r"), Idx(Id("l"), Li
         Mem(Cond(Id("c"), Cond(Id("a"), Id("o"), Id("o2")), Id("o2")), "p"),
         Mem(Cond(Id("c"), Id("o"), Cond(Id("a"), Id("o2"), Id("o"))), "p"),
         Mem(Mem(Cond(Id("c"), Cond(Id("a"), Id("o"), Id("o")), Id("o")), "q"), "r"),
-        Mem(Cond(Id("c"), Cond(Id("a"), Id("o"), Lit("1")), Id("o2")), "p")}
+        Mem(Cond(Id("c"), Cond(Id("a"), Id("o"), Lit("1")), Id("o2")), "p"),
+        (* each conditional followed by its own member: the segments keep their order *)
+        Mem(Cond(Id("c"), Mem(Cond(Id("a"), Id("o"), Id("o")), "q"), Mem(Id("o"), "q")), "r"),
+        Idx(Cond(Id("c"), Mem(Idx(Cond(Id("a"), Id("l"), Id("l")), Lit("0")), "sub"), Mem(Idx(Id("l"), Lit("0")), "sub")), Id("i"))}
 LBad == {Bin("+", Id("a"), Lit("1")), Un("!", Id("a")), Lit("'x'"), Lit("1"), Call(Id("f"), <<Id("a")>>),
          Idx(Arr(<<Item(Id("a"))>>), Lit("0")), Mem(Obj(<<Named("p", Id("a"))>>), "p"), Bin("||", Id("a"), Id("b")),
          Arr(<<Item(Id("a"))>>), Obj(<<Named("p", Id("a"))>>)}
